@@ -35,7 +35,18 @@ CLAIMED.update({
          "Generated prepare/add/update/reset sequences with arbitrary element lists: after every operation GetSetLength = 4 + sum of record lengths = reference size, every record buffer equals its reported length and the reference bytes, CreateIPFIXMsg equals the reference message, the reused set equals a fresh set given the operations since the last reset, and replaying the history through each add path yields identical bytes. Sampled.",
          "trusted: harness/refipfix", "DESIGN.md section 3 C16"),
 })
-HOOK_COMMITS = ["bde829d", "7b897fc"]
+CLAIMED.update({
+ "C05": ("model-based property testing: rapid-generated histories of records, resets and exports over a pool of 5-tuples, compared after every step with a sequential reference model of the aggregation arithmetic written from the statement",
+         "Generated histories (up to 60 operations, 4 five-tuples differing in a single port / protocol, IPv4 and IPv6, all five flow kinds, counters up to 2^60 / 2^40) of records, resets and exports: after every operation GetNumFlows and the GetRecords element map of every flow (latest end, totals, per-node and common deltas and throughput, tcpState, five-tuple) must equal the reference model, and exported snapshots must equal it at that instant. Sampled.",
+         "trusted: the reference model in harness/aggh (DESIGN.md A.2); verif hook VerifShiftDeadlines; end times distinct within a flow (ties between nodes are not judged)", "DESIGN.md section 3 C05"),
+ "C06": ("model-based property testing: exhaustive enumeration of all histories over a 10-symbol alphabet to depth 5/6 plus rapid random histories to depth 80, virtual time by deadline shifting, invariants over the heap/map snapshot after every step",
+         "All histories to depth 5 (quick) / 6 (thorough) over {record for 3 keys, advance 1/4/11 h, scan with 4 failing-callback subsets} under two timeout pairs, plus random histories: every scan's callback sequence (exactly the flows whose deadline passed, earliest first, stop at the first failure) and, after every action, the queue/map one-to-one correspondence, back-pointers, heap order, per-flow deadlines and the advertised next expiry are checked against the model. A scan exactly at a deadline instant is not reachable.",
+         "trusted: expiry model in harness/aggh (DESIGN.md A.3); verif hooks VerifShiftDeadlines/VerifSnapshot; 20 s grid slack vs ms of real time", "DESIGN.md section 3 C06"),
+ "C07": ("model-based property testing: rapid-generated arrival orders of source-node / destination-node records with generated correlate-field values, advances and scans; correlation oracle at every callback plus the retry/drop model",
+         "Generated histories over two inter-node flows needing correlation and a control flow of each ready-at-once kind: no callback before both nodes were seen, merged records carry every non-empty correlate field (exactly the supplied value) and are marked filled, ready-at-once kinds fire at their first deadline, uncorrelated flows are re-armed exactly MaxRetries times and then dropped without a callback. Sampled.",
+         "trusted: model in harness/aggh; rule actions and correlate values are per-flow per-node constants", "DESIGN.md section 3 C07"),
+})
+HOOK_COMMITS = ["bde829d", "7b897fc", "836c091"]
 
 checks = []
 for p in props:
